@@ -32,6 +32,12 @@ import numpy as np
 from vf import lattice
 from vf.cli import ROOT, WorkerResult
 
+
+def _gt(a, b):
+    """a > b that is also True when a is NaN (a silent NaN must never pass a tolerance test)."""
+    return ~(np.asarray(a) <= np.asarray(b))
+
+
 LEVEL = "exploration"
 RULE = (
     "seven exhaustive sub-spaces (see module docstring); one evaluation = one index, node, weight "
@@ -116,7 +122,7 @@ def sub_layout(ctx):
             ref = np.array([origin + np.array(c) @ axes for c in itertools.product(*[range(s) for s in shape])])
             ctx.count(len(ref), section="layout")
             ctx.nontrivial(("uni", dim, aname, shape), section="layout")
-            if g.points.shape != ref.shape or np.max(np.abs(g.points - ref)) > 1e-13:
+            if g.points.shape != ref.shape or _gt(np.max(np.abs(g.points - ref)), 1e-13):
                 ctx.violation(f"layout:uniform:{dim}d:points-not-origin-plus-steps",
                               f"UniformGrid {dim}-D axes={aname} shape={shape}: points differ from origin + i a1 + j a2 (+ k a3) "
                               f"in lexicographic order", case)
@@ -142,7 +148,7 @@ def sub_layout(ctx):
             # separable integrand
             vals = np.prod([fx[i](g.points[:, a]) for a, i in enumerate(combo)], axis=0)
             want = np.prod([np.sum(x.weights * fx[i](x.points)) for x, i in zip(gs, combo)])
-            if abs(g.integrate(vals) - want) > 1e-13 * abs(want):
+            if _gt(abs(g.integrate(vals) - want), 1e-13 * abs(want)):
                 ctx.violation(f"layout:tensor:{k}d:separable-integral", f"Tensor1DGrids{combo}: separable integrand does not "
                               f"integrate to the product of 1D integrals", case)
             axes_pts = g.get_points_along_axes()
@@ -179,7 +185,7 @@ def sub_weights(ctx):
                 ctx.nontrivial(("weights", scheme, dim, shape, aname), section="weights")
                 if g.weights.shape != (int(np.prod(shape)),) or not np.all(np.isfinite(g.weights)):
                     ctx.violation(f"weights:{scheme}:{dim}d:malformed", f"weights shape {g.weights.shape}", case)
-                elif abs(ratio - 1.0) > bound + 1e-12:
+                elif _gt(abs(ratio - 1.0), bound + 1e-12):
                     sig = "sum-near-zero" if abs(ratio) < 0.05 else "sum-off"
                     ctx.violation(f"weights:{scheme}:{dim}d:{sig}",
                                   f"weight={scheme!r} {dim}-D shape {shape} axes {aname}: sum(w)/volume = {ratio:.6g}, allowed "
@@ -230,7 +236,7 @@ def sub_from_molecule(ctx):
         hi = (np.array(g.shape) - 1 - frac) * steps         # distance from the upper faces
         margin = float(min(lo.min(), hi.min()))
         ctx.nontrivial(("mol", mname, spacing, ext, rot), section="from_molecule")
-        if abs(np.linalg.norm(g.axes[0]) - spacing) > 1e-12:
+        if _gt(abs(np.linalg.norm(g.axes[0]) - spacing), 1e-12):
             ctx.violation("from_molecule:spacing", f"{mname}: step {np.linalg.norm(g.axes[0])} != spacing {spacing}", case)
         if margin < ext - spacing - 1e-9:
             sig = "box-centred-on-centre-of-charge" if _centred_on_charge(g, nums, c) else "other"
@@ -342,17 +348,17 @@ def sub_cube(ctx):
                 if not (np.array_equal(g3.origin, g2.origin) and np.array_equal(g3.axes, g2.axes)
                         and np.array_equal(g3.points, g2.points) and np.array_equal(g3.weights, g2.weights)):
                     bad.append("grid-only-read-differs-from-full-read")
-                if abs(np.sum(g2.weights) / np.sum(g.weights) - 1) > 1e-4:
+                if _gt(abs(np.sum(g2.weights) / np.sum(g.weights) - 1), 1e-4):
                     bad.append("weights")
-                if np.max(np.abs(g2.origin - origin)) > gt or np.max(np.abs(g2.axes - axes)) > gt:
+                if _gt(np.max(np.abs(g2.origin - origin)), gt) or _gt(np.max(np.abs(g2.axes - axes)), gt):
                     bad.append("origin/axes")
-                if np.max(np.abs(g2.points - g.points)) > gt * (1 + max(shape) * 3):
+                if _gt(np.max(np.abs(g2.points - g.points)), gt * (1 + max(shape) * 3)):
                     bad.append("points")
-                if not np.array_equal(cd["atnums"], atnums) or np.max(np.abs(cd["atcoords"] - atcoords)) > gt:
+                if not np.array_equal(cd["atnums"], atnums) or _gt(np.max(np.abs(cd["atcoords"] - atcoords)), gt):
                     bad.append("atoms")
-                if np.max(np.abs(cd["atcorenums"] - (pseudo if pseudo is not None else atnums))) > 1e-6:
+                if _gt(np.max(np.abs(cd["atcorenums"] - (pseudo if pseudo is not None else atnums))), 1e-6):
                     bad.append("pseudo-numbers")
-                if cd["data"].shape != (n,) or np.any(np.abs(cd["data"] - data) > 6e-5 * np.abs(data) + 1e-98):
+                if cd["data"].shape != (n,) or np.any(_gt(np.abs(cd["data"] - data), 6e-5 * np.abs(data) + 1e-98)):
                     bad.append("data")
                 if bad:
                     ctx.violation(f"cube:{unit}:round-trip:{'+'.join(bad)}",
@@ -433,7 +439,7 @@ def _interp_shard(arg):
             res.nontrivial()
             scale = 1.0 + np.abs(ref)
             tol = 2e-9 * scale * (10.0 ** (nx + ny + nz) if nx + ny + nz else 1.0) ** 0.5
-            if got.shape != ref.shape or np.any(np.abs(got - ref) > tol):
+            if got.shape != ref.shape or np.any(_gt(np.abs(got - ref), tol)):
                 kind = "value" if (nx, ny, nz) == (0, 0, 0) else "derivative"
                 res.violation(f"interp:cubic:{kind}-not-reproduced",
                               f"{gname}: d^({nx},{ny},{nz}) of x^{a} y^{b} z^{c}: max error "
@@ -475,7 +481,7 @@ def sub_interp_extra(ctx):
                     ctx.violation(f"interp:log:raised:{type(exc).__name__}", f"{exc}", case)
                     continue
                 ctx.nontrivial(("log", gname, kw, nu), section="interp-log")
-                if np.any(np.abs(got - ref) > 1e-7 * (1 + np.abs(ref)) * 10.0**nu):
+                if np.any(_gt(np.abs(got - ref), 1e-7 * (1 + np.abs(ref)) * 10.0**nu)):
                     ctx.violation("interp:log:not-reproduced", f"{gname}: d^{nu}/d{kw[-1]}^{nu} of exp(cubic) through the log variant: "
                                   f"max error {np.max(np.abs(got - ref)):.3e}", case)
         # linear method reproduces trilinear functions
@@ -485,7 +491,7 @@ def sub_interp_extra(ctx):
             ref = q[:, 0] ** a * q[:, 1] ** b * q[:, 2] ** c
             got = np.asarray(g.interpolate(q, vals, method="linear"), dtype=float)
             ctx.nontrivial(("lin", gname, a, b, c), section="interp-linear")
-            if np.any(np.abs(got - ref) > 1e-12 * (1 + np.abs(ref))):
+            if np.any(_gt(np.abs(got - ref), 1e-12 * (1 + np.abs(ref)))):
                 ctx.violation("interp:linear:trilinear-not-reproduced", f"{gname}: x^{a} y^{b} z^{c}",
                               {"sub": "interp-linear", "grid": gname})
 
